@@ -16,3 +16,4 @@ INVARIANT Inv_IdealDest
 INVARIANT Inv_IdealPostings
 INVARIANT Inv_IdealBalances
 INVARIANT Inv_Family
+INVARIANT Inv_ScriptScale
